@@ -1,3 +1,4 @@
+@classmethod
 def spec(cls, rate):
     rate = _astensorsfloat(rate)
     return rate
